@@ -103,11 +103,23 @@ pub struct Scenario {
     pub max_delta_list_len: usize,
     pub history: Vec<Version>,
     pub steps: Vec<Step>,
+    /// The server was restored / republished: from step `fork_at` on the
+    /// truth is `history2` (same sessions and serials may carry other content).
+    pub history2: Option<Vec<Version>>,
+    pub fork_at: usize,
 }
 
 impl Scenario {
-    pub fn snapshot_at(&self, session: u64, serial: u64) -> Option<&Version> {
-        self.history.iter().find(|v| v.session == session && v.serial == serial)
+    /// The history in force at a step.
+    pub fn truth(&self, step: usize) -> &Vec<Version> {
+        match &self.history2 {
+            Some(h2) if step >= self.fork_at => h2,
+            _ => &self.history,
+        }
+    }
+    /// The server's snapshot at `(session, serial)` as of the given step.
+    pub fn snapshot_at(&self, step: usize, session: u64, serial: u64) -> Option<&Version> {
+        self.truth(step).iter().find(|v| v.session == session && v.serial == serial)
     }
 }
 
@@ -245,6 +257,8 @@ impl Scenario {
         json!({"max_delta_count": self.max_delta_count,
                "max_delta_list_len": self.max_delta_list_len,
                "history": self.history.iter().map(Version::to_json).collect::<Vec<_>>(),
+               "history2": self.history2.as_ref().map(|h| h.iter().map(Version::to_json).collect::<Vec<_>>()),
+               "fork_at": self.fork_at,
                "steps": self.steps.iter().map(Step::to_json).collect::<Vec<_>>()})
     }
     pub fn from_json(v: &Value) -> Option<Self> {
@@ -253,6 +267,11 @@ impl Scenario {
             max_delta_list_len: u(v.get("max_delta_list_len")?)? as usize,
             history: v.get("history")?.as_array()?.iter().map(Version::from_json).collect::<Option<_>>()?,
             steps: v.get("steps")?.as_array()?.iter().map(Step::from_json).collect::<Option<_>>()?,
+            history2: match v.get("history2") {
+                Some(h) if h.is_array() => Some(h.as_array()?.iter().map(Version::from_json).collect::<Option<_>>()?),
+                _ => None
+            },
+            fork_at: v.get("fork_at").and_then(|x| x.as_u64()).unwrap_or(0) as usize,
         })
     }
 }
